@@ -76,6 +76,11 @@ PAIRS = {
     'write_legacy_holder_commitment_data.w0': 'HolderSignedTx',   # "Matches the serialization of `HolderSignedTx`"
 }
 
+# the writer's `self` is a wrapper around the persisted struct: this prefix of its field paths is dropped
+WRITER_PREFIX = {
+    'PendingFundingWriteable.write.w0': 'pending_funding.',   # PendingFundingWriteable { pending_funding: &PendingFunding, .. }
+}
+
 KIND_HEAD = {
     'required': 'required', 'required_vec': 'required', 'upgradable_required': 'required',
     'option': 'optional', 'optional_vec': 'optional', 'upgradable_option': 'optional',
@@ -280,7 +285,7 @@ def parse_entries(body, where, srcs):
         typ = parse_type_number(typ_s, where, srcs)
         if typ is None:
             raise TranslateError('%s: `_unused` type on a non-static entry %r' % (where, rec[:80]))
-        out.append({'type': typ, 'kind': kind, 'rust_kind': head, 'field': ' '.join(field.split())[:60]})
+        out.append({'type': typ, 'kind': kind, 'rust_kind': head, 'field': ' '.join(field.split())[:60], 'expr': ' '.join(field.split())})
     return out
 
 
@@ -354,6 +359,485 @@ def impl_type(header):
         return ids[-1] if ids else None
     name = re.match(r'(?:[\w]+::)*(\w+)', ty)
     return name.group(1) if name else None
+
+
+
+# ---------------------------------------------------------------------------------------------------
+# FIELD-LEVEL pairing: which struct field does a hand-written writer put under a TLV type, and which struct
+# field does the paired reader initialise from the record of that type?  Purely syntactic:
+#
+#   writer   the written EXPRESSION with transparent wrappers removed (`&`, `*`, `Some(..)`, `WithoutLength(..)`,
+#            `.as_ref()`, `.clone()`, `.map(..)`, …) is a path `root.a.b`.  `self` / a fn parameter as root is
+#            dropped (`htlc.mpp_part.value` -> `mpp_part.value`); an identifier bound by the enclosing match-arm /
+#            `let` struct pattern stands for the field it was bound from (`Event::X { ref payment_hash, .. }`);
+#            a `let` local is followed to its initialiser when that is itself such a path, or mentions exactly one.
+#            Anything else is `local:<name>` (a computed local), `const:<literal>` or `expr:<text>`.
+#   reader   the VARIABLE the macro binds is followed (through `let` re-bindings and assignments) to the field(s) of
+#            the constructor literal(s) after the macro whose initialiser mentions it; the field whose initialiser
+#            STARTS with the variable wins (`sender_intended_value: sender_intended_value.unwrap_or(value)` is the
+#            field of `sender_intended_value`, not of `value`).  Nested literals give dotted paths
+#            (`mpp_part.value`).  A variable that reaches no constructor field is `local:<name>`.
+#
+# Both sides are normalised to `field:<dotted path>`; Props/C12 `writer_reader_fields_agree` demands equality for
+# every TLV type present on both sides of a pair, with the differing rows pinned one by one.
+# ---------------------------------------------------------------------------------------------------
+RUST_KEYWORDS = {'as', 'break', 'const', 'continue', 'crate', 'else', 'enum', 'extern', 'false', 'fn', 'for', 'if', 'impl', 'in',
+                 'let', 'loop', 'match', 'mod', 'move', 'mut', 'pub', 'ref', 'return', 'self', 'Self', 'static', 'struct', 'super',
+                 'trait', 'true', 'type', 'unsafe', 'use', 'where', 'while', 'dyn', 'Some', 'None', 'Ok', 'Err', 'Vec', 'Box'}
+TRANSPARENT_METHODS = {'as_ref', 'as_mut', 'clone', 'cloned', 'copied', 'iter', 'unwrap', 'read', 'lock', 'borrow', 'deref',
+                       'as_slice', 'to_vec', 'into', 'as_deref', 'unwrap_or_default', 'expect', 'into_iter', 'unwrap_or', 'unwrap_or_else',
+                       'ok_or', 'take', 'to_owned', 'load', 'then_some', 'as_str', 'as_bytes'}
+NAME_AFFIXES = re.compile(r'^(_+)|(_opt|_ser|_wrap|_legacy|_read)$')
+
+
+def norm_local(n):
+    prev = None
+    while prev != n:
+        prev = n
+        n = NAME_AFFIXES.sub('', n)
+    return n
+
+
+def strip_wrappers(e):
+    e = e.strip()
+    while True:
+        m = re.match(r'^(&\s*mut\b\s*|&|\*|mut\s+|ref\s+)', e)
+        if m:
+            e = e[m.end():].strip()
+            continue
+        if e.startswith('(') and match_close(e, 0) == len(e) - 1 and first_top_comma(e[1:-1]) < 0:
+            e = e[1:-1].strip()
+            continue
+        m = re.match(r'^((?:[A-Za-z_]\w*\s*::\s*)*[A-Z]\w*(?:\s*::\s*new)?)\s*\(', e)
+        if m and match_close(e, m.end() - 1) == len(e) - 1:
+            inner = e[m.end():-1].strip()
+            if inner and first_top_comma(inner) < 0:
+                e = inner
+                continue
+        return e
+
+
+def parse_path(e):
+    """`root.a.0.b()?.c` -> ([(name, is_call)], rest) or None when e does not start with an identifier"""
+    m = re.match(r'[A-Za-z_]\w*', e)
+    if not m or (m.group(0) in RUST_KEYWORDS and m.group(0) != 'self'):
+        return None
+    segs = [(m.group(0), False)]
+    i = m.end()
+    if e[i:i + 2] == '::' or e[i:].lstrip().startswith('('):
+        return None   # a type path / a free function call
+    while True:
+        j = i
+        while j < len(e) and e[j] in ' \t\n?':
+            j += 1
+        mm = re.match(r'\.\s*([A-Za-z_]\w*|\d+)', e[j:])
+        if not mm:
+            return segs, e[i:].strip()
+        k = j + mm.end()
+        call = False
+        tf = re.match(r'\s*::\s*<', e[k:])
+        if tf:   # turbofish
+            d, q = 0, k + tf.end() - 1
+            while q < len(e):
+                if e[q] == '<':
+                    d += 1
+                elif e[q] == '>':
+                    d -= 1
+                    if d == 0:
+                        break
+                q += 1
+            k = q + 1
+        if re.match(r'\s*\(', e[k:]):
+            o = k + re.match(r'\s*\(', e[k:]).end() - 1
+            k = match_close(e, o) + 1
+            call = e[o + 1:k - 1]
+        segs.append((mm.group(1), call))
+        i = k
+
+
+def path_text(segs):
+    """field path of the segments after the root: transparent method calls dropped; `.map(|x| x.a.b)` /
+    `.and_then(|x| …)` with a projecting (or merely wrapping) closure continues the path with `a.b`; every other method
+    call kept as `name()` (see `finish_path`)"""
+    out = []
+    for name, call in segs:
+        if call is False:
+            if name != '0':   # `.0` of a newtype wrapper
+                out.append(name)
+        elif name in TRANSPARENT_METHODS:
+            continue
+        elif name in ('map', 'and_then'):
+            cm = re.match(r'^\s*\|\s*(?:&\s*)?(?:mut\s+)?(\w+)\s*\|\s*(.*)$', call, re.S)
+            sub = parse_path(strip_wrappers(cm.group(2))) if cm else None
+            if sub and not sub[1] and sub[0][0][0] == cm.group(1):
+                t = path_text(sub[0][1:])
+                if t:
+                    out.append(t)
+            else:
+                out.append(name + '()')
+        else:
+            out.append(name + '()')
+    return '.'.join(out)
+
+
+def finish_path(path):
+    """a zero-argument getter in LAST position stands for the field of the same name (`payee.node_id()` ->
+    `payee.node_id`); a method call anywhere else makes the value a derived one: None"""
+    if path.endswith('()'):
+        path = path[:-2]
+    return None if '(' in path else path
+
+
+def innermost(sc_list, pos):
+    best = None
+    for o, c, h in sc_list:
+        if o < pos < c and (best is None or o > best[0]):
+            best = (o, c, h)
+    return best
+
+
+def pattern_bindings(body, prefix=''):
+    """`ref a, b: ref c, d: Foo { e, .. }, ..` -> {binding: field path}"""
+    out = {}
+    for item in split_top(body):
+        if item.startswith('..'):
+            continue
+        m = re.match(r'^(\w+)\s*:(?!:)\s*(.*)$', item, re.S)
+        if m:
+            fld, pat = m.group(1), m.group(2).strip()
+            pat = re.sub(r'^(&\s*)?(ref\s+)?(mut\s+)?', '', pat)
+            mm = re.match(r'^(?:[\w:]+\s*)?\{', pat)
+            if mm and match_close(pat, mm.end() - 1) == len(pat) - 1:
+                out.update(pattern_bindings(pat[mm.end():-1], prefix + fld + '.'))
+            else:
+                mm = re.match(r'^(?:Some\s*\(\s*)?(?:ref\s+)?(?:mut\s+)?([a-z_]\w*)\s*\)?$', pat)
+                if mm:
+                    out[mm.group(1)] = prefix + fld
+        else:
+            mm = re.match(r'^(?:ref\s+)?(?:mut\s+)?([a-z_]\w*)$', item)
+            if mm:
+                out[mm.group(1)] = prefix + mm.group(1)
+    return out
+
+
+def stmt_end(text, i):
+    """index of the `;` ending the statement that starts at i (brackets balanced)"""
+    d = 0
+    for k in range(i, len(text)):
+        c = text[k]
+        if c in '([{':
+            d += 1
+        elif c in ')]}':
+            d -= 1
+            if d < 0:
+                return k
+        elif c == ';' and d == 0:
+            return k
+    return len(text)
+
+
+def writer_paths(cl, sc, fscope, mpos, entries, where):
+    fo, fc = fscope
+    body = cl[fo:mpos]
+    # fn parameters (the header text before the fn's `{`)
+    hdr = next((h for (o, c, h) in sc if o == fo), '')
+    params = {'self'}
+    pm = re.search(r'\bfn\s+\w+\s*(?:<[^()]*>)?\s*\(', hdr)
+    if pm:
+        pe = match_close(hdr, pm.end() - 1)
+        for prm in split_top(hdr[pm.end():pe]):
+            mm = re.match(r'^(?:mut\s+)?(\w+)\s*:', prm)
+            if mm:
+                params.add(mm.group(1))
+    enclosing_ok = lambda pos: (lambda s: s is None or s[0] < fo or (s[0] < mpos < s[1]))(innermost(sc, pos))
+    # bindings in scope at the macro, in source order: (position, name, kind, payload)
+    binds = []
+    for m in re.finditer(r'((?:[A-Za-z_]\w*\s*::\s*)*[A-Z]\w*)\s*\{', body):
+        o = fo + m.end() - 1
+        try:
+            c = match_close(cl, o)
+        except TranslateError:
+            continue
+        if c >= mpos:
+            continue
+        k = c + 1
+        while k < len(cl) and (cl[k].isspace() or cl[k] == ')'):
+            k += 1
+        is_arm = cl.startswith('=>', k) or cl[k] == '|' or cl.startswith('if ', k)
+        is_let = cl[k] == '=' and not cl.startswith('==', k) and not cl.startswith('=>', k)
+        if not (is_arm or is_let):
+            continue
+        if is_arm:
+            a = cl.find('=>', k)
+            if a < 0:
+                continue
+            b = a + 2
+            while b < len(cl) and cl[b].isspace():
+                b += 1
+            if not (cl[b] == '{' and b < mpos < match_close(cl, b)):
+                continue
+        else:
+            pre = re.sub(r'(?:[\s(&]|\bSome\b|\bOk\b|\bref\b)+$', '', cl[fo:fo + m.start()])
+            if re.search(r'\b(if|while)\s+let$', pre):
+                # `if let Pat = expr { … }`: the bindings live in that block only
+                d, q = 0, k + 1
+                while q < mpos and not (cl[q] == '{' and d == 0):
+                    d += (cl[q] in '([') - (cl[q] in ')]')
+                    q += 1
+                if not (q < mpos < match_close(cl, q)):
+                    continue
+            elif not enclosing_ok(fo + m.start()):
+                continue
+        for name, fld in pattern_bindings(cl[o + 1:c]).items():
+            binds.append((fo + m.start(), name, 'pat', fld))
+    for m in re.finditer(r'\blet\s+(?:mut\s+)?([a-z_]\w*)\s*(?::[^=;]*?)?=(?!=)', body):
+        pos = fo + m.start()
+        if not enclosing_ok(pos):
+            continue
+        e = stmt_end(cl, fo + m.end())
+        binds.append((pos, m.group(1), 'let', cl[fo + m.end():e]))
+    for m in re.finditer(r'\blet\s*\(([^()]*)\)\s*(?::[^=;]*?)?=(?!=)', body):
+        pos = fo + m.start()
+        if not enclosing_ok(pos):
+            continue
+        for nm in re.findall(r'[a-z_]\w*', m.group(1)):
+            if nm not in ('mut', 'ref'):
+                binds.append((pos, nm, 'tuple', ''))
+    binds.sort(key=lambda b: b[0])
+
+    def lookup(name, before):
+        r = None
+        for b in binds:
+            if b[0] < before and b[1] == name:
+                r = b
+        return r
+
+    def resolve(expr, before, depth=0):
+        e = strip_wrappers(' '.join(expr.split()))
+        if re.fullmatch(r'[0-9][0-9_]*(?:u8|u16|u32|u64|usize)?|true|false|None(?:\s*::\s*<.*>)?|[\w:<>\s]+::\s*new\s*\(\s*\)', e):
+            return 'const:' + re.sub(r'\s+', '', e)[:40]
+        pp = parse_path(e)
+        if pp is None or pp[1]:
+            return 'expr:' + re.sub(r'\s+', ' ', e)[:48]
+        segs = pp[0]
+        root, rest = segs[0][0], path_text(segs[1:])
+        join = lambda a, b: a + ('.' + b if a and b else b)
+        b = lookup(root, before)
+        if b is None:
+            if root in params and (rest or root == 'self'):
+                return 'raw:' + rest
+            return 'local:' + norm_local(root)
+        if b[2] == 'pat':
+            return 'raw:' + join(b[3], rest)
+        if b[2] == 'let' and depth < 4:
+            r = resolve(b[3], b[0], depth + 1)
+            if r.startswith('raw:'):
+                return 'raw:' + join(r[4:], rest)
+        return 'local:' + norm_local(root)
+
+    def resolve_top(expr):
+        r = resolve(expr, mpos)
+        if r.startswith('raw:'):
+            f = finish_path(r[4:])
+            if f is None:
+                pp = parse_path(strip_wrappers(' '.join(expr.split())))
+                return 'local:' + ('.'.join([norm_local(pp[0][0][0])] + [n for n, c in pp[0][1:] if c is False]) if pp else 'derived')
+            return 'field:' + f
+        return r
+
+    for ent in entries:
+        if 'expr' in ent:
+            ent['path'] = resolve_top(ent['expr'])
+
+
+def reader_paths(cl, enc, fscope, mend, entries, where):
+    fo, fc = fscope
+    tlv_vars = [e['expr'] for e in entries if 'expr' in e]
+    if any(not re.fullmatch(r'[A-Za-z_]\w*', v) for v in tlv_vars):
+        raise TranslateError('%s: a reader binds something that is not an identifier: %r' % (where, [v for v in tlv_vars if not re.fullmatch(r'[A-Za-z_]\w*', v)][:3]))
+    # regions to look at, innermost enclosing block first, widened up to the fn body
+    regions = [(mend, c) for (o, c, h) in enc if fo <= o and c <= fc and o < mend < c]
+    regions.sort(key=lambda r: r[1])
+
+    def analyse(a, b):
+        text = cl[a:b]
+        deps = {v: {v} for v in tlv_vars}
+        head = {}
+
+        def idents(s):
+            out = []
+            for mm in re.finditer(r'(?<![\w.])([A-Za-z_]\w*)', s):
+                nm = mm.group(1)
+                if nm in RUST_KEYWORDS or s[mm.end():mm.end() + 2] == '::' or (s[max(0, mm.start() - 2):mm.start()] == '::'):
+                    continue
+                if re.match(r'\s*[(!]', s[mm.end():]) and not nm[0].islower():
+                    continue
+                if re.match(r'\s*\(', s[mm.end():]):
+                    continue   # free function call
+                if re.match(r'\s*:(?!:)', s[mm.end():]) and re.search(r'[{,]\s*$', s[:mm.start()]):
+                    continue   # `field:` label of a nested literal
+                out.append(nm)
+            return out
+
+        def dep_of(s):
+            d = set()
+            for nm in idents(s):
+                d |= deps.get(nm, set())
+            return d
+
+        def head_var(s, depth=0):
+            ids = idents(s)
+            if not ids:
+                return None
+            h = ids[0]
+            if h in tlv_vars and h not in head:
+                return h
+            if h in head and depth < 6:
+                return head_var(head[h], depth + 1) if head[h] is not None else None
+            return h if h in tlv_vars else None
+
+        # let statements / assignments, in order
+        stm = []
+        for mm in re.finditer(r'\blet\s+(?:mut\s+)?([a-z_]\w*)\s*(?::[^=;]*?)?=(?!=)', text):
+            e = stmt_end(text, mm.end())
+            stm.append((mm.start(), [mm.group(1)], text[mm.end():e], True))
+        for mm in re.finditer(r'\blet\s*\(([^()]*)\)\s*(?::[^=;]*?)?=(?!=)', text):
+            e = stmt_end(text, mm.end())
+            stm.append((mm.start(), [x for x in re.findall(r'[a-z_]\w*', mm.group(1)) if x not in ('mut', 'ref')], text[mm.end():e], True))
+        for mm in re.finditer(r'(?<![\w.])([a-z_]\w*)\s*=(?![=>])', text):
+            if re.search(r'\blet\s+(?:mut\s+)?$', text[:mm.start()]) or re.search(r'[:<>!+\-*/|&^]$', text[:mm.start()].rstrip()[-1:] or ' '):
+                continue
+            e = stmt_end(text, mm.end())
+            stm.append((mm.start(), [mm.group(1)], text[mm.end():e], False))
+        stm.sort(key=lambda x: x[0])
+        lets = {}
+        for pos, names, init, is_let in stm:
+            d = dep_of(init)
+            for nm in names:
+                if is_let:
+                    # `let x = x…` re-binding of a TLV variable keeps its identity
+                    deps[nm] = set(d) | ({nm} if (nm in tlv_vars and nm in idents(init)) else set())
+                    if not (nm in tlv_vars and head_var(init) == nm):
+                        head[nm] = init
+                    lets[nm] = (pos, init)
+                else:
+                    deps[nm] = deps.get(nm, set()) | d
+        # constructor literals
+        ctors = []
+        for mm in re.finditer(r'((?:[A-Za-z_]\w*\s*::\s*)*[A-Z]\w*)\s*\{', text):
+            pre = text[:mm.start()].rstrip()
+            if re.search(r'\b(struct|enum|impl|trait|for|match|if|while|in|loop|unsafe|else|mod)$', pre):
+                continue
+            if not re.search(r'[a-z]', mm.group(1).split('::')[-1]):
+                continue   # `… == u32::MAX { … }`: a constant, not a type
+            o = mm.end() - 1
+            try:
+                c = match_close(text, o)
+            except TranslateError:
+                continue
+            k = c + 1
+            while k < len(text) and (text[k].isspace() or text[k] == ')'):
+                k += 1
+            if text.startswith('=>', k) or (k < len(text) and text[k] == '|' and not text.startswith('||', k)) or (k < len(text) and text[k] == '=' and not text.startswith('==', k)):
+                continue   # a pattern
+            if re.search(r'\b(let|if\s+let|while\s+let)\s*(\(|Some\s*\(|Ok\s*\()?\s*$', pre):
+                continue
+            fields = []
+            for item in split_top(text[o + 1:c]):
+                while item.startswith('#['):
+                    item = item[match_close(item, 1) + 1:].strip()
+                if item.startswith('..') or not item:
+                    continue
+                fm = re.match(r'^(\w+)\s*:(?!:)\s*(.*)$', item, re.S)
+                if fm and re.fullmatch(r'[a-z_]\w*', fm.group(1)):
+                    fields.append((fm.group(1), fm.group(2)))
+                elif re.fullmatch(r'[a-z_]\w*', item):
+                    fields.append((item, item))
+                else:
+                    fields = None
+                    break
+            if fields:
+                ctors.append({'a': mm.start(), 'o': o, 'c': c, 'fields': fields, 'prefix': None})
+        # nesting prefixes
+        def prefix_of(ct, depth=0):
+            if ct['prefix'] is not None or depth > 6:
+                return ct['prefix'] or ''
+            ct['prefix'] = ''
+            parent = None
+            for p in ctors:
+                if p is not ct and p['o'] < ct['a'] and ct['c'] < p['c'] and (parent is None or p['o'] > parent['o']):
+                    parent = p
+            if parent is not None:
+                # which field of the parent holds it
+                off = parent['o'] + 1
+                body = text[off:parent['c']]
+                pos = 0
+                for item in split_top(body):
+                    st = body.find(item, pos)
+                    pos = st + len(item)
+                    if off + st <= ct['a'] < off + pos:
+                        fm = re.match(r'^(\w+)\s*:(?!:)', item)
+                        if fm:
+                            ct['prefix'] = prefix_of(parent, depth + 1) + fm.group(1) + '.'
+                        break
+                return ct['prefix']
+            # bound by `let name = … Ctor { … }` and used as the head of exactly one constructor field
+            for nm, (pos, init) in lets.items():
+                ipos = text.find(init, pos)
+                if ipos <= ct['a'] and ct['c'] <= ipos + len(init):
+                    users = [(p, f) for p in ctors if p is not ct for (f, ex) in p['fields'] if (idents(ex) or [None])[0] == nm]
+                    if len(users) == 1:
+                        ct['prefix'] = prefix_of(users[0][0], depth + 1) + users[0][1] + '.'
+                    break
+            return ct['prefix']
+        flds = []   # (path, expr)
+        for ct in ctors:
+            pre = prefix_of(ct)
+            for f, ex in ct['fields']:
+                flds.append((pre + f, ex))
+        consts = []
+        for pth, ex in flds:
+            e1 = ' '.join(ex.split())
+            if not idents(e1) and not re.search(r'\b[A-Z]\w*\s*\{', e1):
+                consts.append((pth, e1[:40]))
+        res = {}
+        for v in tlv_vars:
+            by_head = sorted(set(p for p, ex in flds if head_var(ex) == v))
+            by_any = sorted(set(p for p, ex in flds if v in dep_of(ex)))
+            # a field that merely wraps a nested literal is not the target when one of the literal's own fields is
+            leaf = lambda ps: [p for p in ps if not any(q != p and q.startswith(p + '.') for q in ps)]
+            by_head, by_any = leaf(by_head), leaf(by_any)
+            if len(by_head) == 1:
+                res[v] = 'field:' + by_head[0]
+            elif len(by_head) > 1:
+                res[v] = 'multi:' + '|'.join(by_head)
+            elif len(by_any) == 1:
+                res[v] = 'field:' + by_any[0]
+            elif len(by_any) > 1:
+                res[v] = 'multi:' + '|'.join(by_any)
+            else:
+                res[v] = None
+        return res, bool(ctors), consts
+
+    final = {v: None for v in tlv_vars}
+    const_fields = []
+    for a, b in regions:
+        res, any_ctor, consts = analyse(a, b)
+        hit = False
+        for v in tlv_vars:
+            if final[v] is None and res[v] is not None:
+                final[v] = res[v]
+                hit = True
+        if hit:
+            for c in consts:
+                if c not in const_fields:
+                    const_fields.append(c)
+        if all(final[v] is not None for v in tlv_vars):
+            break
+    for ent in entries:
+        if 'expr' in ent:
+            ent['path'] = final[ent['expr']] or ('local:' + norm_local(ent['expr']))
+    return const_fields
 
 
 def extract_file(path, rel, all_srcs):
@@ -430,9 +914,16 @@ def extract_file(path, rel, all_srcs):
                     if tm:
                         tag = int(tm[-1].group(1))
                     arms = sorted(set(int(x.group(1)) for x in re.finditer(r'(?<![\w.])(\d+)(?:u8)?\s*=>', cl[fscope[0]:fscope[1]])))
+            entries = parse_entries(inner[k + 1:e], where, srcs)
+            const_fields = []
+            if fscope:
+                if direction == 'write':
+                    writer_paths(cl, sc, fscope, m.start(), entries, where)
+                else:
+                    const_fields = reader_paths(cl, enc, fscope, close + 1, entries, where)
             found.append({'name': '%s.%s%d' % (scope, 'w' if direction == 'write' else 'r', n), 'file': rel, 'line': line, 'tag': tag, 'arms': arms,
                           'macro': name, 'dir': direction, 'len_prefixed': name in LEN_PREFIXED, 'owner': ty, 'fn': fn,
-                          'fields': parse_entries(inner[k + 1:e], where, srcs)})
+                          'fields': entries, 'const_fields': const_fields})
     return found
 
 
@@ -594,6 +1085,90 @@ def main(out_path):
         if s['macro'] in BLOCK_MACROS and s['dir'] == 'write' and not s.get('owner') and s['name'] not in PAIRS:
             unpaired.append(s['name'])
 
+    # ---- field-level pairing of every resolved writer/reader pair --------------------------------------------
+    def last_name(path):
+        body = path.split(':', 1)[1]
+        return norm_local(body.split('.')[-1]) if body else ''
+
+    field_rows, writer_fields = [], []
+    for wn, rn in pairs:
+        w, r = seen[wn], seen[rn]
+        if any('expr' not in e for e in w['fields']):
+            raise TranslateError('%s: writer block without expressions' % wn)
+        rt = {}
+        for e in r['fields']:
+            if r['dir'] == 'both':
+                rt[e['type']] = ('field:' + e['expr'], e['expr'])     # declarative reader: the field list IS the struct
+            else:
+                if 'path' not in e:
+                    raise TranslateError('%s: reader block %s has no analysable enclosing fn' % (wn, rn))
+                rt[e['type']] = (e['path'], e['expr'])
+        pre = WRITER_PREFIX.get(wn)
+        wf = []
+        for e in w['fields']:
+            if 'path' not in e:
+                raise TranslateError('%s: writer block has no analysable enclosing fn' % wn)
+            wp = e['path']
+            if pre and wp.startswith('field:' + pre):
+                wp = 'field:' + wp[6 + len(pre):]
+            if wp.startswith('field:') and wp != 'field:':
+                wf.append((e['type'], wp[6:]))
+            if e['type'] not in rt:
+                continue
+            rp, rexpr = rt[e['type']]
+            wk, rk = wp, rp
+            if not (wp.startswith('field:') and rp.startswith('field:')) and wp.split(':')[0] in ('field', 'local') and rp.split(':')[0] in ('field', 'local'):
+                # one side is not resolvable to a struct field: compare NAMES (modulo _opt, _legacy, …) — the writer's
+                # field / local name against the reader's field name and the name of the variable the reader binds
+                wnames = [last_name(wp)]
+                pw = parse_path(strip_wrappers(e['expr']))
+                if pw and len(pw[0]) == 1 and not pw[1]:
+                    wnames.append(norm_local(pw[0][0][0]))
+                rnames = [last_name(rp), norm_local(rexpr)]
+                common = [n for n in wnames if n and n in rnames]
+                if common:
+                    wk = rk = 'name:' + common[0]
+            field_rows.append({'wblock': wn, 'rblock': rn, 'type': e['type'], 'wpath': wp, 'rpath': rp, 'wkey': wk, 'rkey': rk,
+                               'wexpr': e['expr'], 'rexpr': rexpr})
+        writer_fields.append((wn, wf))
+    n_both = sum(1 for x in field_rows if x['wpath'].startswith('field:') and x['rpath'].startswith('field:'))
+    if len(field_rows) < 300 or n_both * 2 < len(field_rows):
+        raise TranslateError('field pairing: only %d rows / %d resolved to struct fields on both sides (the writers / readers no longer have the expected shape)' % (len(field_rows), n_both))
+    def lean_key(k):
+        kind, text = k.split(':', 1)
+        return '(.%s, %s)' % ({'local': 'loc', 'const': 'const', 'expr': 'expr', 'multi': 'multi', 'field': 'field', 'name': 'name'}[kind], lean_str(text))
+    pair_index = {pr: k for k, pr in enumerate(pairs)}
+    FL = ['/- GENERATED by tools/gen_tlv_schemas.py from lightning/src/**/*.rs — do not edit.',
+          '   Field-level pairing of the hand-written TLV writers and readers: for every (write block, read block) pair and every',
+          '   TLV type present on both sides, the struct field the writer takes the value from and the struct field the reader',
+          '   initialises from it (syntactic analysis, see the translator).  Key kinds: `.field a.b` = struct field path;',
+          '   `.name x` = one side is a computed local, names compared and equal; `.loc` = computed local; `.const` / `.expr` /',
+          '   `.multi` = not a single field. -/',
+          'import LdkModel.Model.TlvFrame', 'namespace Ldk.TlvFrame.Gen', 'open Ldk.TlvFrame', '',
+          '/-- (index of the pair in tlvPairs, write block, read block, TLV type, writer key, reader key) -/',
+          'def tlvFieldRows : List FieldRow := [']
+    FL.append(',\n'.join('  (%d, %s, %s, %d, %s, %s)' % (pair_index[(x['wblock'], x['rblock'])], lean_str(x['wblock']), lean_str(x['rblock']), x['type'], lean_key(x['wkey']), lean_key(x['rkey'])) for x in field_rows) + ']')
+    FL += ['', '/-- per hand-written write block of a pair: (TLV type, struct field path written) for the entries that resolve to a field -/',
+           'def tlvWriterFields : List (String × List (Nat × String)) := [']
+    FL.append(',\n'.join('  (%s, [%s])' % (lean_str(wn), ', '.join('(%d, %s)' % (t, lean_str(pth)) for t, pth in wf)) for wn, wf in writer_fields) + ']')
+    reader_consts = []
+    done = set()
+    for wn, rn in pairs:
+        if rn in done:
+            continue
+        done.add(rn)
+        for pth, lit in seen[rn].get('const_fields', []):
+            reader_consts.append((rn, pth, lit))
+    FL += ['', '/-- fields of the constructor literal of a paired hand-written reader that are initialised with a CONSTANT (no variable at',
+           '    all): (read block, field path, initialiser) — what a write + read resets -/',
+           'def tlvReaderConstFields : List (String × String × String) := [']
+    FL.append(',\n'.join('  (%s, %s, %s)' % (lean_str(a), lean_str(b), lean_str(c)) for a, b, c in reader_consts) + ']')
+    FL += ['', 'end Ldk.TlvFrame.Gen', '']
+    fp = os.path.join(os.path.dirname(os.path.abspath(out_path)), 'TlvFieldPairs.lean')
+    ft = '\n'.join(FL)
+    if not os.path.exists(fp) or open(fp).read() != ft:
+        open(fp, 'w').write(ft)
+
     # version prefixes: write_ver_prefix!(w, VER, MIN) / read_ver_prefix!(r, THIS) with per-file u8 constants
     vers = []
     for p, rel in files:
@@ -668,7 +1243,7 @@ def main(out_path):
         os.makedirs(os.path.dirname(os.path.abspath(out_path)), exist_ok=True)
         open(out_path, 'w').write(text)
     js = {'schemas': [{k: v for k, v in s.items()} for s in schemas], 'enums': enums, 'pairs': pairs, 'unpaired_writers': unpaired, 'unread_writers': unread, 'reader_arm_without_tlv': untlv,
-          'skipped': skipped, 'ver_prefixes': vers}
+          'skipped': skipped, 'ver_prefixes': vers, 'field_rows': field_rows, 'reader_const_fields': reader_consts}
     jp = os.path.join(os.path.dirname(os.path.abspath(out_path)), 'tlv_schemas.json')
     jt = json.dumps(js, indent=1, sort_keys=True) + '\n'
     if not os.path.exists(jp) or open(jp).read() != jt:
@@ -692,8 +1267,9 @@ def main(out_path):
     tt = '\n'.join(T) + '\n'
     if not os.path.exists(tp) or open(tp).read() != tt:
         open(tp, 'w').write(tt)
-    print('gen_tlv_schemas: %d TLV blocks (%d fields) in %d files, %d enums, %d write/read pairs, %d unpaired writers, %d skipped'
-          % (len(schemas), sum(len(s['fields']) for s in schemas), len(files_with), len(enums), len(pairs), len(unpaired), len(skipped)))
+    print('gen_tlv_schemas: %d TLV blocks (%d fields) in %d files, %d enums, %d write/read pairs, %d unpaired writers, %d skipped; field pairing: %d rows, %d resolved to struct fields on both sides, %d keys differ'
+          % (len(schemas), sum(len(s['fields']) for s in schemas), len(files_with), len(enums), len(pairs), len(unpaired), len(skipped),
+             len(field_rows), n_both, sum(1 for x in field_rows if x['wkey'] != x['rkey'])))
 
 
 if __name__ == '__main__':
